@@ -158,7 +158,7 @@ def gen_ints(rng, signed, n, count):
 
 def gen_groups(rng, tier):
     thorough = tier == "thorough"
-    per = 1200 if thorough else 160
+    per = 600 if thorough else 160
     fracs_all = list(range(-4, 71))
     groups = []
     # In the thorough tier every case goes through the implementation and the oracle; the (much slower)
@@ -596,7 +596,7 @@ def run(chk, args):
         "straddling integers of the scaled line, uniform reals over 1.3x the range, random bit patterns, +-inf/NaN "
         "(outside the domain); arrays of 16 shape/layout kinds (0-d, Python and numpy scalars, empty, strided, "
         "transposed, Fortran order, up to 4-d); fixed-point integers incl. 2^53+-1 and the range ends for the way "
-        "back; a malformed-format stream. thorough tier: all n_frac in -4..70 for the numpy widths, 1200 values per "
+        "back; a malformed-format stream. thorough tier: all n_frac in -4..70 for the numpy widths, 600 values per "
         "format, the model evaluated on every 4th format; exhaustive enumeration of every value of every 8-bit "
         "format (all n_frac; model + oracle) and of 16-bit formats (oracle) for the way back, scalar and array, and of "
         "all 256 words for fix_to_float. non-trivial = input inside the property's domain whose result is not "
